@@ -109,6 +109,8 @@ def replay(ctx, path):
     d = json.load(open(path))
     drv = build(ctx)
     e = d["event"]
+    if e.get("e") == "Fault":
+        return core.replay_fault(ctx, d, drv, "NumTextTrace", path)
     if e["e"] == "Toa": ln = "Toa %s %s %d" % (e["fn"], fmt(e["val"]), e["base"])
     elif e["e"] == "Ato": ln = "Ato %s %s %d" % (e["fn"], fmt(e["text"]), e["base"])
     else: ln = "Dpr %s %s" % (e["fn"], fmt(e["val"]))
